@@ -107,7 +107,7 @@ fn prio_by_name(n: &str) -> Option<u8> {
 /// * every other cell — property: "otherwise the higher priority wins": the maximum in the
 ///   documented order Ignored < Scanned < Historic < OpenAdjacent < FoundNote < ChainTip < Verify.
 #[rustfmt::skip]
-const RULE: [[[u8; NP]; NP]; 2] = [
+pub(crate) const RULE: [[[u8; NP]; NP]; 2] = [
     // force_rescans = false
     [   // inserted:  I  S  H  O  F  C  V
         /* cur I */  [I, S, H, O, F, C, V],
